@@ -3,7 +3,6 @@
 package strategy
 
 import (
-
 	metav1 "k8s.io/apimachinery/pkg/apis/meta/v1"
 
 	"github.com/DataDog/extendeddaemonset/zzverif/fakeapi"
